@@ -67,11 +67,16 @@ def photometry_loop(repo, res):
         if not ok:
             res.add(Finding('MIRROR', f.fullname, norm_stmt_text(var[0]), f'{f.module.relpath}:{var[0].lineno}',
                             'do_photometry: data and error are not cut/weighted/masked identically', {}))
-    # no-overlap test is exactly `slc_large is None`
-    tests = [n for n in ast.walk(loop) if isinstance(n, ast.If) and any(isinstance(x, ast.Continue) for x in n.body)]
-    ok = len(tests) == 1 and nf(tests[0].test) == nf_text('slc_large is None')
+    # no-overlap test is exactly `slc_large is None`: the NaN append runs under that condition only, the sum under its negation only
+    # (decided on path conditions, so `if ...: append(nan); continue` and `if ...: append(nan) else: ...` are the same)
+    from ..guards import guard_of
+    nan_st = [s_ for s_ in pool if isinstance(s_, ast.Expr) and nf(s_.value) == nf_text('aperture_sums.append(np.nan)')]
+    sum_st = [s_ for s_ in pool if isinstance(s_, ast.Expr) and nf(s_.value) == nf_text('aperture_sums.append(values.sum())')]
+    tests = [guard_of(s_, loop) for s_ in nan_st + sum_st]
+    ok = len(nan_st) == 1 and len(sum_st) == 1 \
+        and tests[0] == ('and', [('atom', 'slc_large is None')]) and tests[1] == ('and', [('not', ('atom', 'slc_large is None'))])
     res.oblige('SPEC', 'NaN exactly when the bounding box misses the image (`slc_large is None`)', ok, nontrivial=True,
-               sample={'test': nf(tests[0].test) if tests else None})
+               sample={'conditions': [str(t_) for t_ in tests]})
     if not ok:
         res.add(Finding('SPEC', f.fullname, 'no-overlap test', f'{f.module.relpath}:{loop.lineno}',
                         'do_photometry must return NaN only when the aperture box misses the image (`slc_large is None`); a fully '
